@@ -26,6 +26,7 @@ import (
 
 	"github.com/boz/kcache"
 	metav1 "k8s.io/apimachinery/pkg/apis/meta/v1"
+	"k8s.io/apimachinery/pkg/types"
 	"pgregory.net/rapid"
 )
 
@@ -77,7 +78,10 @@ var cacheKeys = []cacheKeyDef{{"a", "p"}, {"a", "q"}, {"b", "p"}, {"b", "q"}}
 
 func genVersion() *rapid.Generator[string] {
 	return rapid.Custom(func(t *rapid.T) string {
-		switch rapid.IntRange(0, 19).Draw(t, "vkind") {
+		switch rapid.IntRange(0, 21).Draw(t, "vkind") {
+		case 20, 21:
+			// the ends of the integer range (Atoi accepts them): differences between two of them overflow
+			return rapid.SampledFrom([]string{"9223372036854775807", "9223372036854775806", "-9223372036854775808", "-9223372036854775807", "4611686018427387904", "-4611686018427387905", "-2"}).Draw(t, "extreme")
 		case 0:
 			return rapid.SampledFrom([]string{"", "abc", "1.5", "0x3", " 7", "7 ", "99999999999999999999", "-", "1e3"}).Draw(t, "malformed")
 		case 1:
@@ -97,7 +101,13 @@ func genObject() *rapid.Generator[metav1.Object] {
 		if x := rapid.SampledFrom([]string{"", "1", "2"}).Draw(t, "x"); x != "" {
 			labels = map[string]string{"x": x}
 		}
-		return mkPod(k.ns, k.name, genVersion().Draw(t, "rv"), labels)
+		p := mkPod(k.ns, k.name, genVersion().Draw(t, "rv"), labels)
+		// incarnations: the same namespace/name can come back with another UID (deleted and re-created
+		// while nobody watched); the cache is keyed by namespace/name and versions alone
+		if uid := rapid.SampledFrom([]string{"", "", "u1", "u2"}).Draw(t, "uid"); uid != "" {
+			p.SetUID(types.UID(uid))
+		}
+		return p
 	})
 }
 
